@@ -194,6 +194,8 @@ impl ClockShared {
 
 	#[must_use]
 	pub fn fractional_position(&self) -> f64 {
+		#[cfg(kira_verif)]
+		crate::verif::point("clk.read.mid");
 		f64::from_bits(self.fractional_position.load(Ordering::SeqCst))
 	}
 
@@ -291,6 +293,8 @@ impl Clock {
 	fn reset(&mut self) {
 		self.state = State::NotStarted;
 		self.shared.ticks.store(0, Ordering::SeqCst);
+		#[cfg(kira_verif)]
+		crate::verif::point("clk.reset.mid");
 	}
 
 	fn update_shared(&mut self) {
@@ -302,6 +306,8 @@ impl Clock {
 			} => (*ticks, *fractional_position),
 		};
 		self.shared.ticks.store(ticks, Ordering::SeqCst);
+		#[cfg(kira_verif)]
+		crate::verif::point("clk.pub.mid");
 		self.shared
 			.fractional_position
 			.store(fractional_position.to_bits(), Ordering::SeqCst);
